@@ -45,7 +45,7 @@ public:
      * for any signature hash <hash>, the cryptographic check is skipped and the signature is
      * assumed to be valid.
      */
-    std::map<valtype,valtype> pretend_valid_map;
+    std::map<valtype,std::set<valtype>> pretend_valid_map;
     std::set<valtype> pretend_valid_pubkeys;
     bool has_preamble;
 
